@@ -62,7 +62,7 @@ mod date_format {
         }
 
         let year: i32 = s[0..2].parse::<i32>().map_err(serde::de::Error::custom)?;
-        let year = if year >= 80 { 1900 + year } else { 2000 + year };
+        let year = if year >= 50 { 1900 + year } else { 2000 + year };
         let month: u32 = s[2..4].parse().map_err(serde::de::Error::custom)?;
         let day: u32 = s[4..6].parse().map_err(serde::de::Error::custom)?;
 
